@@ -68,8 +68,8 @@ def merged_layer_events(sv, res):
     per = {}
     for i, ev in enumerate(res.trace):
         vpid = ev[0]
-        pos = ev[-1]
-        per.setdefault(vpid, []).append((pos, 1, i, ev[1:-3]))
+        pos = ev[-2]
+        per.setdefault(vpid, []).append((pos, 1, i, ev[1:-4]))
     for vpid, out in outputs_by_vpid(res).items():
         lst = per.setdefault(vpid, [])
         for m in LINE_RE.finditer(out or b''):
@@ -160,7 +160,7 @@ def check_test_hooks(sv, res, states=None, transitions=None):
     viol = []
     per = {}
     for ev in res.trace:
-        per.setdefault(ev[0], []).append(ev[1:-3])
+        per.setdefault(ev[0], []).append(ev[1:-4])
     for vpid, events in per.items():
         cur = None
         S = D = phases = None
